@@ -3,7 +3,9 @@
    every row-hash function, every key and every multiplicity v >= 0.
    Log part: see the C05_log_* theorems below (CmsLogProofs.v). *)
 From Coq Require Import ZArith List.
+From Coq Require Import Floats.PrimFloat.
 From Sketchnu Require Import Machine CmsLinear CmsLinearProofs.
+From Sketchnu Require CmsLog CmsLogProofs.
 Import ListNotations.
 Open Scope Z_scope.
 
@@ -49,3 +51,61 @@ Example C05_lin_nonvacuous :
   query 2 b s [1] = cap - 3 /\ query 2 b (cls_add 2 b s [2] 5) [1] = cap /\
   n_added (cls_add 2 b s [2] 5) = n_added s + 3 /\ n_added (cls_add 2 b s [2] 2) = n_added s + 2.
 Proof. vm_compute. repeat split; reflexivity. Qed.
+
+(* ---------------- log8 / log16 ----------------
+   For every table powneg (standing for base ** -c'), every draw source, every cast that is the
+   identity on 0..umax (uint8 / uint16), every state with counters in 0..umax. *)
+Import CmsLog.
+Import CmsLogProofs.
+
+Theorem C05_log_steps : forall depth bucket nr umax powneg castc,
+  0 <= umax -> (forall x, 0 <= x <= umax -> castc x = x) ->
+  forall (s : lsk) (k : key) (v : Z), lsk_ok umax s -> 0 <= v ->
+  lquery depth bucket umax s k
+    <= lquery depth bucket umax (lcls_add depth bucket nr umax powneg castc s k v) k
+    <= Z.min (lquery depth bucket umax s k + v) umax.
+Proof. exact CmsLogProofs.C05_log_steps. Qed.
+Print Assumptions C05_log_steps.
+
+Theorem C05_log_exact : forall depth bucket nr umax powneg castc,
+  0 <= umax -> (forall x, 0 <= x <= umax -> castc x = x) -> nr < umax -> powneg 0 = f_one ->
+  forall (s : lsk) (k : key) (v : Z), lsk_ok umax s -> rs_draws_ok (lrs s) -> 0 <= v ->
+  lquery depth bucket umax s k + v <= nr + 1 ->
+  lquery depth bucket umax (lcls_add depth bucket nr umax powneg castc s k v) k = lquery depth bucket umax s k + v.
+Proof. exact CmsLogProofs.C05_log_exact. Qed.
+Print Assumptions C05_log_exact.
+
+Theorem C05_log_exact_estimate : forall depth bucket nr umax powneg decode castc,
+  0 <= umax -> (forall x, 0 <= x <= umax -> castc x = x) -> nr < umax -> powneg 0 = f_one ->
+  forall (s : lsk) (k : key) (v : Z), (forall c, 0 <= c <= nr + 1 -> decode c = z2f c) ->
+  lsk_ok umax s -> rs_draws_ok (lrs s) -> 0 <= v -> lquery depth bucket umax s k + v <= nr + 1 ->
+  lestimate depth bucket umax decode s k = z2f (lquery depth bucket umax s k) /\
+  lestimate depth bucket umax decode (lcls_add depth bucket nr umax powneg castc s k v) k
+    = z2f (lquery depth bucket umax s k + v).
+Proof. exact CmsLogProofs.C05_log_exact_estimate. Qed.
+Print Assumptions C05_log_exact_estimate.
+
+Theorem C05_log_mono : forall depth bucket nr umax powneg castc,
+  0 <= umax -> (forall x, 0 <= x <= umax -> castc x = x) ->
+  forall (s : lsk) (k : key) (v : Z) (j : key), lsk_ok umax s -> 0 <= v ->
+  lquery depth bucket umax s j <= lquery depth bucket umax (lcls_add depth bucket nr umax powneg castc s k v) j.
+Proof. exact CmsLogProofs.C05_log_mono. Qed.
+Print Assumptions C05_log_mono.
+
+Theorem C05_log_bound : forall depth bucket nr umax powneg castc,
+  0 <= umax -> (forall x, 0 <= x <= umax -> castc x = x) ->
+  forall (s : lsk) (k : key) (v : Z) (j : key), lsk_ok umax s -> 0 <= v ->
+  lquery depth bucket umax (lcls_add depth bucket nr umax powneg castc s k v) j <=
+  Z.max (lquery depth bucket umax s j) (lquery depth bucket umax (lcls_add depth bucket nr umax powneg castc s k v) k).
+Proof. exact CmsLogProofs.C05_log_bound. Qed.
+Print Assumptions C05_log_bound.
+
+Theorem C05_log_one_per_row : forall depth bucket nr umax powneg castc (s : lsk) (k : key) (v : Z) (r c : nat),
+  c <> bucket r k -> lcms (lcls_add depth bucket nr umax powneg castc s k v) r c = lcms s r c.
+Proof. exact CmsLogProofs.C05_log_one_per_row. Qed.
+Print Assumptions C05_log_one_per_row.
+
+Theorem C05_log_nadded : forall depth bucket nr umax powneg castc (s : lsk) (k : key) (v : Z),
+  ln_added (lcls_add depth bucket nr umax powneg castc s k v) = ln_added s + v.
+Proof. exact CmsLogProofs.C05_log_nadded. Qed.
+Print Assumptions C05_log_nadded.
